@@ -9,7 +9,7 @@ from ..ir import Program
 from .. import frontend, api, par
 from . import dest_common as dc
 
-EXCLUDE = {"handle_str_bos_overflow", "_wmemcpy_s_chk", "_wmemmove_s_chk"}
+EXCLUDE = {"handle_str_bos_overflow", "_wmemcpy_s_chk", "_wmemmove_s_chk", "safec_vsnprintf_s"}
 
 
 def judge(name, r):
@@ -19,11 +19,51 @@ def judge(name, r):
         if o["exempt"] or o["nul"]:
             continue
         kind = "error" if o["err"] is True else ("success" if o["err"] is False else "return")
-        out.append(dict(key="C03:unterminated:%s:%s:ret=%s%s" % (base, kind, o["ret"], ":dirty" if o["dirty"] else ""), rule="N-nul-in-dest",
+        out.append(dict(key="C03:unterminated:%s:%s:ret=%s%s:%s" % (base, kind, o["ret"], ":dirty" if o["dirty"] else "", o["msg"]), rule="N-nul-in-dest",
                         where="%s:%s" % (r["file"], o["line"]),
                         text="%s: a %s return (%s) is reached with no terminator known in dest%s" % (base, kind, o["ret"], " after this call wrote into it" if o["dirty"] else " (dest is left as the caller passed it)"),
                         path=o["path"]))
     return out
+
+
+def formatter_rule(ck, prog, name="safec_vsnprintf_s", report=None):
+    """N2 (must-pass-through): the s*printf_s entries rely on the formatter to terminate `buffer` when it formats into memory.
+    On the edge where `out == safec_out_buffer` holds, every path to a return must pass a call through `out` whose character is the constant 0."""
+    report = report or ck.report
+    fn = prog.funcs.get(name)
+    if fn is None:
+        ck.fail_broken("formatter %s not found" % name)
+        return 0
+    out = fn.pnames.get("out")
+    if out is None:
+        ck.fail_broken("%s has no out parameter" % name)
+        return 0
+    term_blocks = set()
+    for c in fn.calls():
+        if c.get("callee") is None and c.get("callee_v", {}).get("k") == "v" and c["callee_v"]["id"] == out["id"]:
+            a0 = c["args"][0] if c.get("args") else None
+            if a0 is not None and a0.get("k") == "c" and a0["v"] == 0:
+                term_blocks.add(c["_bb"])
+    edges = []
+    for i in fn.insts():
+        if i["op"] == "br" and "cond" in i and i["cond"].get("k") == "v":
+            c = fn.defs.get(i["cond"]["id"])
+            if c is not None and c["op"] == "icmp" and c["pred"] in ("eq", "ne"):
+                ids = [o.get("id") for o in c["ops"]]
+                fns = [o.get("name") for o in c["ops"] if o.get("k") == "f"]
+                if out["id"] in ids and "safec_out_buffer" in fns:
+                    edges.append((i, i["t"] if c["pred"] == "eq" else i["f"]))
+    if not edges or not term_blocks:
+        ck.fail_broken("%s: the buffer-output test / terminating out(0, ..) call was not found (anchor vanished)" % name)
+        return 0
+    rets = {r["_bb"] for r in fn.rets()}
+    for (br, S) in edges:
+        reach = fn.reachable_from(S, avoid=term_blocks)
+        if reach & rets:
+            report("C03:formatter-terminator-skipped:%s" % name, "N-formatter-terminates-buffer", fn.loc(br),
+                   "%s: with out == safec_out_buffer a return can be reached without storing the terminating NUL through out(0, ..): the s*printf_s entries "
+                   "then return a dest filled to dmax without a terminator" % name)
+    return len(edges)
 
 
 def run(ck):
@@ -36,6 +76,8 @@ def run(ck):
         mods, info = frontend.load_modules(config=cfg)
         prog = Program(mods)
         names = [n for n in dc.anchored_writers(prog, "C03") if n not in EXCLUDE]
+        if cfg == "default":
+            formatter_rule(ck, prog)
         nfun = len(names)
         res, err = par.pmap(prog, lambda p, n: dc.explore(p, n), names)
         for n, e in err.items():
